@@ -82,7 +82,7 @@ func (m *monitor) Send(update database.Update) {
 	}
 	args := []interface{}{json.RawMessage([]byte(m.id)), tu}
 	var reply interface{}
-	err := m.client.Call("update2", args, &reply)
+	err := m.client.Call("update", args, &reply)
 	if err != nil {
 		log.Printf("client error handling update rpc: %v", err)
 	}
